@@ -193,7 +193,12 @@ func (c *Conversation) processSMPTLV(t tlv, x dataMessageExtra) (toSend *tlv, er
 
 	smpMessage, ok := t.smpMessage()
 	if !ok {
-		return nil, newOtrError("corrupt data message")
+		// An SMP message that cannot be read (wrong number of values, damaged
+		// values) is not an honest one. Ignoring it silently would leave the
+		// run hanging: give the run up, tell the user and tell the peer.
+		c.smpEvent(SMPEventCheated, 0)
+		abort := c.restartSMP()
+		return &abort, nil
 	}
 
 	return c.receiveSMP(smpMessage)
